@@ -183,6 +183,19 @@ def monitor(tr, case):
                     bad(nm + "_charge_exceeds_demand_schedule", "round %d month %d: charged %s %.8g exceeds demand %.8g" % (k + 1, m, nm, ch[m], dem[m]), round=k + 1, month=m)
                 if ch[sm:].size and ch[sm:].max() > tol:
                     bad(nm + "_charge_after_shutoff", "round %d: %s charged after the shut-off month %d" % (k + 1, nm, sm), round=k + 1)
+                # the fat and protein carried by the charge: none where no calories are charged (in particular after the shut-off)
+                for comp in ("fat", "protein"):
+                    cv = np.asarray(getattr(lp.time_consts[nm], comp), float)
+                    if cv.shape == ch.shape:
+                        # (before the shut-off the fat and protein of the charge come from LP variables of their own that nothing ties to
+                        # the calories when fat and protein are not required - MNG: 1.9e-4 thousand tons of fat with no calories in
+                        # months 0-1 under continued demand - so only the months the statement speaks of are examined)
+                        stray = np.abs(cv) * (np.abs(ch) <= tol) * (np.arange(len(cv)) >= sm)
+                        # calories up to `tol` count as none; they can carry at most 0.25 thousand tons per billion kcal (pure protein)
+                        if stray.max() > 0.25 * tol + 1e-6 * max(1.0, float(np.abs(cv).max())):
+                            m = int(stray.argmax())
+                            bad(nm + "_charge_nutrients_after_shutoff", "round %d month %d: %s charge carries %.6g thousand tons of %s but no calories%s" % (
+                                k + 1, m, nm, cv[m], comp, " (after the shut-off month %d)" % sm if m >= sm else ""), round=k + 1, month=m, nutrient=comp)
     for nm, dem, sm in (("feed", feed_dem, fm), ("biofuel", bio_dem, bm)):
         if dem[sm:].size and dem[sm:].max() > 0:
             bad(nm + "_demand_after_shutoff", "%s demand schedule non-zero after month %d" % (nm, sm))
